@@ -73,22 +73,3 @@ example : parseMove (showMove ⟨⟨52, by decide⟩, ⟨60, by decide⟩, some 
   simp [showSquare, fileChar_size, rankChar_size, (by decide : 'k'.utf8Size = 1)]
 
 end Chess.Props
-
-open Chess.Props in
-#print axioms C13_square_roundtrip
-open Chess.Props in
-#print axioms C13_move_roundtrip
-open Chess.Props in
-#print axioms C13_parse_square_total
-open Chess.Props in
-#print axioms C13_parse_move_total
-open Chess.Props in
-#print axioms C13_parse_square_prefix
-open Chess.Props in
-#print axioms C13_parse_move_prefix
-open Chess.Props in
-#print axioms C13_show_move_shape
-open Chess.Props in
-#print axioms C13_show_square_shape
-open Chess.Props in
-#print axioms C13_show_square_injective
